@@ -43,9 +43,14 @@ def run_session_cases(ctx, binp, cases, name, shard):
                 c["oracle_fail"] = (i, why)
                 break
     todo = [c for c in cases if "panic" not in c["impl"] and len(c["impl"]) == len(c["ops"])]
-    outs, chunks = vlib.coq_eval_sharded(
-        ctx, name, fl.SCOQ_HEADER, todo,
-        lambda ch: fl.render_scases([(c["U"], c["ops"], c["impl"]) for c in ch]), shard=shard, timeout=1500)
+    outs, chunks = [], []
+    group = 4 * shard
+    for gi in range(0, max(len(todo), 1), group):
+        o1, c1 = vlib.coq_eval_sharded(
+            ctx, "%s_%d" % (name, gi // group), fl.SCOQ_HEADER, todo[gi:gi + group],
+            lambda ch: fl.render_scases([(c["U"], c["ops"], c["impl"]) for c in ch]), shard=shard, timeout=1500)
+        outs += o1
+        chunks += c1
     for (rc, o), ch in zip(outs, chunks):
         vals = parse_evals(o) if rc == 0 else []
         if len(vals) != 1 or len(vals[0]) != len(ch):
@@ -124,7 +129,7 @@ def run(ctx):
     if not binp:
         return
     cases = gen_cases(ctx)
-    if not run_session_cases(ctx, binp, cases, "c14", shard=(len(cases) + 3) // 4):
+    if not run_session_cases(ctx, binp, cases, "c14", shard=12):
         return
     report_sessions(ctx, cases, "sessions", "session_overlay / failed_call_unchanged / session_frame (coq/props/C14.v)")
     coverage(ctx, cases)
